@@ -95,9 +95,12 @@ def fix_structure(ctx, rule='A5'):
     # freeing: value None deletes exactly that key
     dels = [n for n in cfg.nodes if n.kind == 'stmt' and isinstance(n.ast, ast.Delete)]
     ok = bool(dels) and norm(dels[0].ast.targets[0]) == f'self._fixed_values[{key_txt}]'
+    pops = [c for c in calls(fn, 'pop') if norm(c.func.value) == 'self._fixed_values' and c.args and
+            norm(c.args[0]) == key_txt]
+    ok = ok or bool(pops)
     ctx.ob(rule, fkey(fn, rule, 'free-deletes-entry'), ok, fn.where,
-           'passing None removes exactly the entry of that variable from the fixed-value table',
-           short(dels[0].ast) if dels else 'no delete')
+           'passing None removes exactly the entry of that variable from the fixed-value table (del or pop)',
+           short(dels[0].ast) if dels else (short(pops[0]) if pops else 'no delete'))
     if dels:
         guards.check_guarded(ctx, rule, fn, dels,
                              lambda atom, truth: truth is True and isinstance(atom, ast.Compare) and
@@ -215,11 +218,18 @@ def check(ctx):
     ctx.floor('A16', 30, 'regions of the fix guards')
     ctx.floor('A5c', 10, 'consumers of the fixed-value table')
     ctx.floor('A1', 8, 'persistent writes on the fix/free/decode slice')
+    # memoised answers on the decode path: the key covers every parameter the stored answer depends on
+    from ..rules import persist as _ps
+    _ps.check_decode_memos(ctx)
 
 
 from ..selftest import V  # noqa: E402
 
 VARIANTS = [
+    V('old-value-dropped-before-validation', 'optimization/graph_processor.py',
+      [("        if value is None:\n            if idx in self._fixed_values:\n                del self._fixed_values[idx]\n        else:\n", "        self._fixed_values.pop(idx, None)\n        if value is not None:\n")], key='clears-after-write'),
+    V('twin-free-by-pop', 'optimization/graph_processor.py',
+      [("            if idx in self._fixed_values:\n                del self._fixed_values[idx]\n", "            self._fixed_values.pop(idx, None)\n")], expect='silent'),
     V('fix-accepts-n', 'optimization/graph_processor.py',
       [("                if value < 0 or value >= des_var.n_opts:", "                if value < 0 or value > des_var.n_opts:")],
       key='discrete'),
